@@ -2,6 +2,7 @@
    `c18 orig` runs the model of the code as found (before patches/C18-*). -/
 import TboxModel.Util
 import TboxModel.C18.Model
+import TboxModel.C18.Compact
 import TboxModel.C18.SemWidth
 open Tbox.Util Tbox.C18
 
@@ -41,6 +42,7 @@ def parseSOp (w : String) (ndefs : Nat) : Option Op :=
   | 'c' :: 'p' :: r => (two? (String.ofList r)).map fun p => .cpost p.1 p.2
   | 'j' :: r => (num? (String.ofList r) 64).map .join
   | 'x' :: r => (num? (String.ofList r) 64).map .cancel
+  | 'R' :: r => (num? (String.ofList r) 64).map .resume
   | 'n' :: r => (num? (String.ofList r) ndefs).map fun d => .create d true
   | 'N' :: r => (num? (String.ofList r) ndefs).map fun d => .create d false
   | _ => none
@@ -57,21 +59,27 @@ def showOp : Op → String
   | .acquire k => s!"a{k}" | .release k => s!"v{k}"
   | .post b => s!"p{b}" | .bwait b => s!"b{b}"
   | .cadd k v => s!"ca{k}:{v}" | .cwait k => s!"cw{k}" | .cpost k v => s!"cp{k}:{v}"
-  | .join t => s!"j{t}" | .cancel t => s!"x{t}"
+  | .join t => s!"j{t}" | .cancel t => s!"x{t}" | .resume t => s!"R{t}"
   | .create d true => s!"n{d}" | .create d false => s!"N{d}"
   | .throw => "t" | .rcleanup => "K"
 
 def showRes : Res → String
   | .ok => "ok" | .fail => "fail" | .val v => s!"v{v}"
 
-def showEv (e : Ev) : String :=
+/-- `Mutex::Locker`'s constructor has no result: the `lock()` it makes is logged as `ok` on both sides -/
+def hideRes (s : State) (e : Ev) : Res :=
+  match e.op with
+  | .lock _ => if e.r ≠ mainR ∧ (s.R e.r).raii then .ok else e.res
+  | _ => e.res
+
+def showEvS (s : State) (e : Ev) : String :=
   if e.r = mainR then s!"P e r=main {showOp e.op} {showRes e.res} c=0"
-  else s!"P e r={e.r} {showOp e.op} {showRes e.res} c={if e.canc then 1 else 0}"
+  else s!"P e r={e.r} {showOp e.op} {showRes (hideRes s e)} c={if e.canc then 1 else 0}"
 
 /-- calls that may be made from the main context through a `main <op>` line (create / cancel are the
 `new` / `cancel` lines; exit / throw are not calls) -/
 def mainCallable : Op → Bool
-  | .create _ _ | .cancel _ | .exit | .throw | .rcleanup => false
+  | .create _ _ | .cancel _ | .resume _ | .exit | .throw | .rcleanup => false
   | _ => true
 
 def summary (s : State) : String :=
@@ -83,7 +91,8 @@ def summary (s : State) : String :=
   let sm := String.join ((List.range nPrims).map fun k => if (s.sm k).count = 0 then "0" else "1")
   -- `Channel::size()` returns `bool` (queue_.size() narrowed): true iff non-empty
   let cz := String.join ((List.range nPrims).map fun c => if (s.ch c).queue.isEmpty then "0" else "1")
-  s!"P st={st} ch={ch} cz={cz} sm={sm}" ++ (if s.stuck then " cleanup-did-not-terminate" else "")
+  s!"P st={st} ch={ch} cz={cz} sm={sm}" ++ (if s.stuck then " cleanup-did-not-terminate" else "") ++
+    (if s.corrupt then " stack-smaller-than-first-frame" else "")
 
 def parseMain (s : State) (ws : List String) : Option MainOp :=
   match ws with
@@ -92,6 +101,11 @@ def parseMain (s : State) (ws : List String) : Option MainOp :=
       if s.defs.length ≥ 32 then none
       let ops ← parseScript sc s.defs.length
       pure (.define (xf == 1) ops)
+  -- a script whose `l<m>` / `u<m>` are the constructor / scope end of a `Mutex::Locker` (RAII: scopes are left when it returns)
+  | ["defr", sc] => do
+      if s.defs.length ≥ 32 then none
+      let ops ← parseScript sc s.defs.length
+      pure (.defineR ops)
   | ["new", d, now] => do pure (.new (← num? d s.defs.length) ((← num? now 2) == 1))
   | ["resume", r] => do pure (.resume (← num? r s.n))
   | ["cancel", r] => do pure (.cancel (← num? r s.n))
@@ -100,10 +114,12 @@ def parseMain (s : State) (ws : List String) : Option MainOp :=
   | ["main", w] => do
       let op ← parseSOp w s.defs.length
       if mainCallable op then pure (.call op) else none
-  -- stack size (KiB) of the routines created from now on: no effect on the model (harness only)
+  -- stack size (KiB) of the routines created from now on
   | ["stack", k] => do
       let v ← num? k 1025
-      if v = 64 ∨ v = 128 ∨ v = 256 ∨ v = 1024 then pure .pass else none
+      if v = 64 ∨ v = 128 ∨ v = 256 ∨ v = 1024 then pure (.stack (v * 1024)) else none
+  -- the same in bytes, from 0 (round 5: `Routine::Routine` clamps to ROUTINE_STACK_MIN_SIZE, patches/C18-08)
+  | ["stackb", b] => do pure (.stack (← num? b 1000000))
   | _ => none
 
 /-- `semw <init> <a|v…>`: one private `Semaphore(sch, init)` used by one routine, at the C++ width
@@ -157,22 +173,23 @@ def stepLine (orig : Bool) (s : State) (line : String) : State × List String :=
     match sw with
     | some l =>
       let s0 := { s with tags := [] }
-      let s' := step s0 .pass
-      if s'.aborted then (s', ["B semw abort", l] ++ ((s'.log.take s'.abortAt).drop s.log.length).map showEv ++ ["P aborted"])
-      else (s', ["B semw", l] ++ (s'.log.drop s.log.length).map showEv ++ [summary s'])
+      let s' := stepC nPrims s0 .pass
+      if s'.aborted then (s', ["B semw abort", l] ++ ((s'.log.take s'.abortAt).drop s.log.length).map (showEvS s') ++ ["P aborted"])
+      else (s', ["B semw", l] ++ (s'.log.drop s.log.length).map (showEvS s') ++ [summary s'])
     | none =>
     match parseMain s ws with
     | none => (s, ["bad-op"])
     | some op =>
       let s0 := { s with tags := [] }
       let pre := stateTags s0 op
-      let s' := step s0 op
+      -- `stepC` = `step` with the tables re-tabulated into arrays every 64 operations (`C18_stepC_eq`: equal to `step`)
+      let s' := stepC nPrims s0 op
       if s'.aborted then
         -- the process is gone: the trace ends where abort() was called
-        let evs := ((s'.log.take s'.abortAt).drop s.log.length).map showEv
+        let evs := ((s'.log.take s'.abortAt).drop s.log.length).map (showEvS s')
         (s', ["B " ++ " ".intercalate (pre ++ ["abort"])] ++ evs ++ ["P aborted"])
       else
-      let evs := (s'.log.drop s.log.length).map showEv
+      let evs := (s'.log.drop s.log.length).map (showEvS s')
       (s', ["B " ++ " ".intercalate (pre ++ s'.tags ++ ["n" ++ toString (min s'.n 7)])] ++ evs ++ [summary s'])
 
 def main (args : List String) : IO Unit :=
